@@ -16,7 +16,7 @@
 From Coq Require Import List NArith Bool Arith Permutation Lia.
 Import ListNotations.
 Require Import MV.Common.Interleave MV.C05.Model MV.C05.Spec MV.C05.Exec.
-Require Import MV.C05.ProofsSeq MV.C05.ProofsInv MV.C05.ProofsCor MV.C05.ProofsUniq MV.C05.ProofsCons MV.C05.ProofsProg MV.C05.ProofsSnap MV.C05.ProofsEmpty MV.C05.ProofsOrder MV.C05.ProofsSpec MV.C05.ProofsTrace1 MV.C05.ProofsTrace2 MV.C05.ProofsTrace3 MV.C05.ProofsTrace4 MV.C05.ProofsTrace5 MV.C05.ProofsTrace6 MV.C05.ProofsTrace7 MV.C05.ProofsTrace8 MV.C05.ProofsTrace9 MV.C05.ProofsTrace10.
+Require Import MV.C05.ProofsSeq MV.C05.ProofsInv MV.C05.ProofsCor MV.C05.ProofsUniq MV.C05.ProofsCons MV.C05.ProofsProg MV.C05.ProofsSnap MV.C05.ProofsEmpty MV.C05.ProofsOrder MV.C05.ProofsSpec MV.C05.ProofsTrace1 MV.C05.ProofsTrace2 MV.C05.ProofsTrace3 MV.C05.ProofsTrace4 MV.C05.ProofsTrace5 MV.C05.ProofsTrace6 MV.C05.ProofsTrace7 MV.C05.ProofsTrace8 MV.C05.ProofsTrace9 MV.C05.ProofsTrace10 MV.C05.ProofsTrace11 MV.C05.ProofsTrace12.
 Local Open Scope nat_scope.
 
 (* (1) complete calls, run one after the other by any threads, are exactly the bag operations:
@@ -489,16 +489,7 @@ Proof. exact spec_snapshot_completeness_no_clear. Qed.
    start"; a call that finishes with `true` has discharged every obligation, so the set was empty.
    Without clears every block stays reachable from tail, so the `clears` disjunct of Spec.accounts
    is not needed.
-   STILL NOT PROVED of S3 (C05_spec_completeness_on_model), and therefore of the conjunction
-   C05_spec_ok_on_model:
-   (i)   is_empty = FALSE (rkind 3: some publication lies before the call's last read): needs
-         Spec.empty_end restated with explicit state (the trace index of the thread's last
-         521/507/508 step) and a ledger "a set bit in a reachable-or-detached block has a 503 position
-         in the trace";
-   (ii)  data_with and is_empty = true in cases WITH clears: needs the 541 positions, the alignment of
-         clear calls with their `rcas`, and a detach ledger (a block unreachable from tail was
-         detached by a clear whose 541 position lies before the reader's start, or the reader
-         still holds it). *)
+   What is still not proved of S3 is listed under C05_spec_is_empty_completeness_on_model_no_clear. *)
 Theorem C05_spec_is_empty_true_completeness_on_model_no_clear : forall c : case,
   (forall p, In p (progs_of c) -> ~ In CClear p) ->
   let '(tr, rss, _, _, _) := run_case c in
@@ -506,6 +497,69 @@ Theorem C05_spec_is_empty_true_completeness_on_model_no_clear : forall c : case,
   let rc := rcalls tr 0 rss in
   forallb (fun r => if (rkind r =? 2)%N then accounts tbl (filter is_clear rc) (rstart r) (handed r) else true) rc = true.
 Proof. exact spec_is_empty_true_completeness_no_clear. Qed.
+
+(* Clause S3 of the checker for is_empty calls that return FALSE (rkind 3), on the model, for EVERY
+   case (clears or not, late-claim class or not, done or not): some push-table entry has its 503
+   position strictly below the call's last read (Spec.empty_end: the last of the thread's steps at
+   521 / 507 / 508 that follow the call's 520 step).  Proof: run along the trace with the conditional
+   no-op rule of Common/InterleaveTraceCond (a no-op entry is only emitted for a thread whose step is
+   None, and step is never None at E1/E2/E3), next to a ledger of the 520 positions: while a thread
+   is inside an is_empty call all its trace entries after the 520 step are at 521/507/508, so at the
+   finishing step empty_end equals that step's index (ProofsTrace11.Run_end; empty_end is monotone
+   under trace extension, empty_end_mono); a `false` answer has read a block with a set bit
+   (emp_false); a set bit is a written slot of a genuine push that is past its 503 step (heap_ok,
+   Q2, claim_ok), so its thread has a 503 position in the trace so far (set_bit_pub, via the
+   publication ledger RP), and the thread's first push carries the first such position in the push
+   table (pinfos_first, the converse of pinfos_ppub). *)
+Theorem C05_spec_is_empty_false_needs_publication_on_model : forall c : case,
+  let '(tr, rss, _, _, _) := run_case c in
+  let tbl := pinfos tr 0 (progs_of c) in
+  let rc := rcalls tr 0 rss in
+  forallb (fun r => if (rkind r =? 3)%N then existsb (fun i => olt (ppub i) (rend r)) tbl else true) rc = true.
+Proof. exact spec_is_empty_false_needs_publication. Qed.
+
+(* Both is_empty halves of S3 on the model for every case whose programs contain no clear_with.
+   STILL NOT PROVED of S3 (C05_spec_completeness_on_model), and therefore of the conjunction
+   C05_spec_ok_on_model: data_with and is_empty = true calls in cases WITH clears: needs the 541
+   positions, the alignment of clear calls with their `rcas`, and a detach ledger (a block
+   unreachable from tail was detached by a clear whose 541 position lies before the reader's
+   start, or the reader still holds it) for the `clears` disjunct of Spec.accounts. *)
+Theorem C05_spec_is_empty_completeness_on_model_no_clear : forall c : case,
+  (forall p, In p (progs_of c) -> ~ In CClear p) ->
+  let '(tr, rss, _, _, _) := run_case c in
+  let tbl := pinfos tr 0 (progs_of c) in
+  let rc := rcalls tr 0 rss in
+  forallb (fun r => if (rkind r =? 2)%N then accounts tbl (filter is_clear rc) (rstart r) (handed r)
+                    else if (rkind r =? 3)%N then existsb (fun i => olt (ppub i) (rend r)) tbl else true) rc = true.
+Proof. exact spec_is_empty_completeness_no_clear. Qed.
+
+(* A case whose programs contain no clear_with is never in the late-claim class: every block stays
+   reachable from tail (NCI), so no fetch_add lands on a detached block and the ghost flag `late`
+   stays false along every schedule. *)
+Theorem C05_no_clear_not_late_claim : forall c : case,
+  (forall p, In p (progs_of c) -> ~ In CClear p) -> known_class c = None.
+Proof. exact no_clear_not_late. Qed.
+
+(* THE CONJUNCTION for programs without clear_with: the trace-level checker spec_ok accepts the
+   model's run of EVERY case whose programs contain no clear_with (such a case is never in the
+   late-claim class, C05_no_clear_not_late_claim): S0, S1, S2, S4 (C05_spec_ok_on_model_partial2),
+   S3 for data_with (C05_spec_snapshot_completeness_on_model_no_clear) and for is_empty
+   (C05_spec_is_empty_completeness_on_model_no_clear), S5 (C05_spec_conservation_on_model).
+   C05_spec_ok_on_model in general (cases WITH clears) is still not proved: see above. *)
+Theorem C05_spec_ok_on_model_no_clear : forall c : case,
+  (forall p, In p (progs_of c) -> ~ In CClear p) ->
+  spec_ok c (run_case c) = true.
+Proof.
+  intros c Hnc. pose proof (C05_no_clear_not_late_claim c Hnc) as Hk.
+  pose proof (C05_spec_ok_on_model_partial2 c) as P. pose proof (C05_spec_conservation_on_model c Hk) as S5.
+  pose proof (C05_spec_snapshot_completeness_on_model_no_clear c Hnc) as S30.
+  pose proof (C05_spec_is_empty_completeness_on_model_no_clear c Hnc) as S3e.
+  unfold spec_ok. destruct (run_case c) as [[[[tr rss] done] final] anom]. cbv zeta in *. unfold spec_run. cbv zeta.
+  rewrite P. cbn [andb]. destruct done; [|reflexivity]. rewrite (S5 eq_refl), andb_true_r.
+  apply forallb_forall. intros r Hr.
+  pose proof (proj1 (forallb_forall _ _) S30 r Hr) as H0. pose proof (proj1 (forallb_forall _ _) S3e r Hr) as H2. cbv beta in H0, H2.
+  destruct (rkind r =? 0)%N; [exact H0|]. cbn [orb]. exact H2.
+Qed.
 
 (* Block::len must be trailing_ones, not count_ones: in a reachable configuration where a snapshot
    stands at 506 after a passed quiescence test, a popcount length hands out an unwritten slot,
